@@ -32,7 +32,9 @@ def _run_shard(args):
                                    # log statement of the code under test is formatted (and thrown away)
                                    **({"TSS_LOG": "trace"} if backend == "inmem" else {})))
     try:
-        so, se = pr.communicate(text, timeout=int(os.environ.get("TSS_SHARD_TIMEOUT", "300")))
+        # (cases that ask the rig itself to wait get that time on top of the limit)
+        waits = sum(int(l.split()[1]) for l in text.split("\n") if l.startswith(("sleep ", "lockfor ")) and l.split()[1].isdigit()) // 1000
+        so, se = pr.communicate(text, timeout=int(os.environ.get("TSS_SHARD_TIMEOUT", "300")) + waits)
         if pr.returncode != 0:
             return None, f"harness exit {pr.returncode}: {se[-2000:]}"
         impl = so
